@@ -86,7 +86,7 @@ main(void)
 	uint32_t d0;
 	size_t i;
 #ifdef NATIVE_REPLAY
-	memset(c, 0, sizeof *c);
+	NATIVE_FILL(c, sizeof *c);
 #endif
 	T0F_DEPTH_AT(6);
 	d0 = t0n_dpi;
